@@ -9,7 +9,7 @@ from vcommon import gz, gnat, glist, gopt, gbool, gbytes
 
 INTS = [0, 1, -1, 2, 3, 7, 42, 255, 256, 2 ** 31, -2 ** 63, 2 ** 63 - 1]
 FLOATS = [0.0, -0.0, 1.0, 1.5, 0.5, -2.25, 3.0, 1e300, 5e-324, float("inf")]
-STRS = ["", "a", "b", "abc", "a b", "x:y", "é", "日本", "name", "k1", "0", "zz"]
+STRS = ["", "a", "b", "abc", "a b", "x:y", "é", "日本", "name", "k1", "0", "zz", "caf\u00e9", "cafe\u0301"]
 KEYS = ["a", "b", "c", "k", "k1", "k2", "é", "0", "x", "aa", ""]
 PATHS = ["/tmp/x", "rel/y", "/a/b/c.txt"]
 COLORS = ["RED", "GREEN", "BLUE"]
@@ -554,7 +554,7 @@ def neutral_edit(rng, desc, g):
 
 # ------------------------------------------------------------------ signature-changing near edits (C03)
 def _scalar_different(rng, kind, old):
-    pools = {"int": [vint(x) for x in [0, 1, 2, 3, 5, 256, -1]], "str": [vstr(x) for x in ["", "a", "b", "ab", "ba", "a b"]],
+    pools = {"int": [vint(x) for x in [0, 1, 2, 3, 5, 256, -1]], "str": [vstr(x) for x in ["", "a", "b", "ab", "ba", "a b", "caf\u00e9", "cafe\u0301", "\u212b", "\u00c5"]],
              "float": [vfloat(x) for x in [0.0, 1.0, 1.5, 2.5, -1.5]],
              "bool": [{"t": "bool", "v": True}, {"t": "bool", "v": False}],
              "Color": [{"t": "enum", "e": "Color", "m": m} for m in COLORS],
